@@ -168,6 +168,27 @@ def reach_rules(chk, F, A, an, table, tag):
                        "for n=%d, w=%d, p=%d the byte index computed by %s is at most %s for every digit i < p: byte %d (holding the last checksum digits) is never read, "
                        "so checksum bits are not signed and a forged digest can dominate the signed one" % (n, w, p, df.path, hi, last_byte), where=df.loc())
                 chk.count("digit_reach_rows", 1)
+    # T5 (checksum side): for every (hash size, parameter row) the routine that sums the digits - including closures it hands to
+    # iterator adaptors - performs no conversion that loses value (a digit count of 256 stored in a u8 makes the checksum constant)
+    from . import pf as _pf
+    target = ck[0] if ck else (apps[0] if len(apps) == 1 else None)
+    if target is not None:
+        nrows = 0
+        for binding in _pf.assoc_partitions(F, an, rows=True):
+            nkey = binding.get(tr + "::OUTPUT_SIZE")
+            if not nkey:
+                continue
+            with bind_assoc(an, binding):
+                an.lossy_obs, an.memo, an.ctx_count = {}, {}, {}
+                an.call_local(target.path, [None] * target.arg_count, {(2, ("#len",)): (nkey[0], nkey[0])})
+                lossy = {k: v for k, v in an.lossy_obs.items() if k[0] == target.path or k[0].startswith(target.path + "::{closure")}
+                wv = [v for k, v in binding.items() if isinstance(k, tuple) and k[1] == "winternitz"]
+                nrows += 1
+                chk.ob("T5.checksum-computed-without-loss", "n=%d:w=%s%s" % (nkey[0], wv[0][0] if wv else "?", tag), not lossy,
+                       "for n=%d, w=%s the checksum computation in %s converts a value that does not fit (%s): the digit count or the sum is truncated, so the "
+                       "checksum no longer covers every digit" % (nkey[0], wv[0][0] if wv else "?", target.path, ["%s %s -> %s" % (k[1], v[0], k[2]) for k, v in lossy.items()][:2]),
+                       where=target.loc())
+        chk.count("checksum_rows_checked", nrows)
     # T6 per hash size
     if len(apps) != 1:
         chk.ob("T6.appender-found", "appender" + tag, False, "checksum-appending routine not unique: %s" % [f.path for f in apps])
